@@ -68,6 +68,26 @@ def eval_case(case):
         d = d_full - (n_abs if case["remove_abs"] else 0)
         if st.default_work_amount != d:
             out.append(O.V("work amount is not the sub-project's duration", "C20/duration", (st.default_work_amount, d, d_full, n_abs)))
+        # a refused configuration (a never simulated project) after the successful one leaves the task unchanged
+        if case.get("refuse_after"):
+            sb0 = sim.build(sub)
+            fd0, path0 = tempfile.mkstemp(suffix=".json", dir=C.WORK)
+            os.close(fd0)
+            try:
+                sb0.project.write_simple_json(path0)
+                before2 = dict(vars(st))
+                with warnings.catch_warnings(record=True) as wl2:
+                    warnings.simplefilter("always")
+                    st.set_all_attributes_from_json(file_path=path0, remove_absence_time_list=bool(case["remove_abs"]))
+                wl2 = [w for w in wl2 if "not simulated" in str(w.message)]
+                after2 = dict(vars(st))
+                changed2 = [k for k in before2 if before2[k] is not after2.get(k) and before2[k] != after2.get(k)]
+                if not wl2:
+                    out.append(O.V("configuring an already configured task from an unsimulated project issues no warning", "C20/refuse-warning-again", None))
+                if changed2 or set(after2) != set(before2):
+                    out.append(O.V("a refused configuration changes an already configured task", "C20/refuse-changed-again", changed2))
+            finally:
+                os.unlink(path0)
         # the same file configured again in the same process, with the other setting of the flag and
         # then with the first one: the result must not depend on what was read before
         for flag in (not case["remove_abs"], bool(case["remove_abs"])):
@@ -158,7 +178,7 @@ def gen_cases(rng, n):
         units = [15, 30, 60, 120, 240, 480] if rng.random() < 0.8 else [20, 60, 180, 45, 100]
         npre = rng.choice([0, 1, 1, 2])
         cases.append({"subproject": c, "su": rng.choice(units), "pu": rng.choice(units), "remove_abs": rng.random() < 0.5,
-                      "explicit_path": rng.random() < 0.4,
+                      "explicit_path": rng.random() < 0.4, "refuse_after": rng.random() < 0.3,
                       "pre": [gen.qs(rng.choice([Fraction(1), Fraction(2), Fraction(1, 2), Fraction(0)])) for _ in range(npre)],
                       "pre_kinds": [rng.choice([0, 0, 1]) for _ in range(npre)], "pos": rng.randrange(0, 5),
                       "parent_abs": sorted(set(rng.randrange(0, 12) for _ in range(rng.choice([0, 0, 1, 2, 3])))),
